@@ -6,4 +6,8 @@ VARIABLE cell
 Init == cell \in LawCells
 Next == UNCHANGED cell
 InvPrint == PrintT(<<"CELL", cell.mode, cell.size, cell.xmin, cell.deg, cell.law>>)
+
+(* the plan of C35 *)
+Init35 == cell \in C35Cells
+InvPrint35 == PrintT(<<"CELL", cell.contour, cell.deg, cell.size, cell.xmin>>)
 =============================================================================
